@@ -95,6 +95,9 @@ structure GenFormat where
   /-- per algorithmic function: the pointer parameters through which it (syntactically)
       stores -/
   algoWrites  : List (String × List String)
+  /-- memory accesses through an lvalue wider than a byte obtained by casting a pointer that
+      only promises byte alignment: (function, wide pointer type, source pointer type) -/
+  typedSites  : List (String × String × String)
   statics     : List (String × String × Bool)  -- (object, type, const-qualified) with static storage
   header      : String                   -- the format's public header
   /-- constants the C compiler evaluates in a TU that includes just that header:
